@@ -124,7 +124,10 @@ func cmdCheck(args []string) int {
 				}
 				return out
 			}
-			fcn.Requires, fcn.Ensures = keepC(fcn.Requires), keepC(fcn.Ensures)
+			fcn.Requires, fcn.Ensures, fcn.Anchored = keepC(fcn.Requires), keepC(fcn.Ensures), keepC(fcn.Anchored)
+			for n, invs := range fcn.Invariants {
+				fcn.Invariants[n] = keepC(invs)
+			}
 		}
 	}
 	r.Eng = &Engine{prog: prog, frame: BuildFrame(prog)}
